@@ -157,6 +157,8 @@ class Interface(ModelElement):
                                                                             iname=name)
 
         self.topo.graph_model.remove_cp_and_links(node_id=node_id, delete_parent=False)
+        # remove from interface list as well
+        self._interfaces = list(filter((lambda x: x.node_id != node_id), self._interfaces))
 
     def __list_interfaces(self) -> ViewOnlyDict:
         """
